@@ -631,7 +631,7 @@ pub fn run_tagged(h: &History, obs: &mut Obs) -> Result<(), Failure> {
     let c = h.cmp;
     let mut t = SplayTree::new(move |a: &(i32, u32), b: &(i32, u32)| c.cmp(&a.0, &b.0));
     let mut m: BTreeMap<(i64, i64), ((i32, u32), i32)> = BTreeMap::new();
-    let mut insert = |t: &mut SplayTree<(i32, u32), i32, _>, m: &mut BTreeMap<(i64, i64), ((i32, u32), i32)>, k: i32, v: i32, tag: u32, obs: &mut Obs| -> Result<(), Failure> {
+    let insert = |t: &mut SplayTree<(i32, u32), i32, _>, m: &mut BTreeMap<(i64, i64), ((i32, u32), i32)>, k: i32, v: i32, tag: u32, obs: &mut Obs| -> Result<(), Failure> {
         let got = t.insert((k, tag), v);
         let want = match m.get_mut(&c.image(k)) {
             Some(e) => {
